@@ -261,16 +261,22 @@ class GraphInitializers(collections.UserDict[str, "_core.Value"]):
             data.update(kwargs)
         self._graph = graph
         for value in data.values():
+            self._check_value(value)
+        for value in data.values():
             self._set_graph(value)
 
         super().__init__(data)
 
-    def _set_graph(self, value: _core.Value) -> None:
-        """Set the graph for the value."""
+    def _check_value(self, value: _core.Value) -> None:
+        """Check that the value can be added without modifying anything."""
         if value._graph is not None and value._graph is not self._graph:
             raise ValueError(
                 f"Value '{value}' is already an initializer of a different graph. Please remove the value from the previous graph first"
             )
+
+    def _set_graph(self, value: _core.Value) -> None:
+        """Set the graph for the value."""
+        self._check_value(value)
         value._is_initializer = True
         value._graph = self._graph
 
@@ -291,10 +297,8 @@ class GraphInitializers(collections.UserDict[str, "_core.Value"]):
             raise TypeError(f"Value name must be a string, not {type(key)}")
         if key == "":
             raise ValueError("Value name cannot be an empty string")
-        if not value.name:
-            logger.info("Value %s does not have a name, setting it to '%s'", value, key)
-            value.name = key
-        elif key != value.name:
+        # Perform all checks before modifying the value or the data structure
+        if value.name and key != value.name:
             raise ValueError(
                 f"Key '{key}' does not match the name of the value '{value.name}'. Please use the value.name as the key."
             )
@@ -302,6 +306,10 @@ class GraphInitializers(collections.UserDict[str, "_core.Value"]):
             raise ValueError(
                 f"Value '{value}' is produced by a node and cannot be a graph initializer"
             )
+        self._check_value(value)
+        if not value.name:
+            logger.info("Value %s does not have a name, setting it to '%s'", value, key)
+            value.name = key
         if key in self.data:
             # If the key already exists, unset the old value
             old_value = self.data[key]
@@ -310,6 +318,11 @@ class GraphInitializers(collections.UserDict[str, "_core.Value"]):
         # the dictionary is not modified
         self._set_graph(value)
         super().__setitem__(key, value)
+
+    def __ior__(self, other):
+        """Update the initializers, tracking ownership of every value."""
+        self.update(other)
+        return self
 
     def __delitem__(self, key: str) -> None:
         """Delete an initializer from the graph."""
